@@ -76,6 +76,50 @@ theorem recovers_le_errors_field (o : Oracle) (fi : FInfo) (sh : Shape) (p : Pat
     (Spec.completeField o fi sh p).2.recovers ≤ (Spec.completeField o fi sh p).2.errs.length := by
   rw [panic_completes_to_null_recover_once o fi sh p m hd hp h]; simp
 
+/-! ### field interceptors (`AroundFields`): the outermost wrapper `~around` (`Model/Exec.lean: fieldsAround`) -/
+
+/-- the field as it runs under an installed interceptor -/
+def underInterceptor (fi : FInfo) : FInfo := { fi with dirs := fi.dirs ++ ["~around"] }
+
+/-- **A failing field interceptor**: whatever schema directives the field has and whatever its resolver would do,
+nothing inside the interceptor runs (no directive, no resolver), the position is null (or propagates when
+non-null) with one error at its path. -/
+theorem interceptor_error_blocks_everything (o : Oracle) (fi : FInfo) (sh : Shape) (p : Path) (m : String)
+    (h : o.dir p "~around" = .err m) :
+    Spec.completeField o (underInterceptor fi) sh p =
+      (Spec.failed sh.nn, eff [⟨p, m⟩] [(pathStr p, "directive:~around")]) := by
+  simp only [Spec.completeField, underInterceptor, List.reverse_append, List.reverse_cons, List.reverse_nil,
+    List.nil_append, List.cons_append, Impl.runDirs, h]
+  first
+    | rfl
+    | (congr 1; apply St.ext' <;> simp [St.invoked])
+
+/-- **A panicking field interceptor**: the same, and the recover hook runs exactly once. -/
+theorem interceptor_panic_recover_once (o : Oracle) (fi : FInfo) (sh : Shape) (p : Path) (m : String)
+    (h : o.dir p "~around" = .panic m) :
+    Spec.completeField o (underInterceptor fi) sh p =
+      (Spec.failed sh.nn, eff [⟨p, "recovered: " ++ m⟩] [(pathStr p, "directive:~around")] 1) := by
+  simp only [Spec.completeField, underInterceptor, List.reverse_append, List.reverse_cons, List.reverse_nil,
+    List.nil_append, List.cons_append, Impl.runDirs, h]
+  first
+    | rfl
+    | (congr 1; apply St.ext' <;> simp [St.invoked, St.append, eff])
+
+/-- **Fault locality for interceptors**: what the interceptor does at `f` cannot change the completion of any
+position `q` that `f` does not lie under - whatever else the operation does. -/
+theorem interceptor_fault_local (o : Oracle) (f : Path) (x : DOut) (fi : FInfo) (sh : Shape) (q : Path)
+    (h : ¬ q <+: f) :
+    Spec.completeField (o.withDir f "~around" x) (underInterceptor fi) sh.around q =
+      Spec.completeField o (underInterceptor fi) sh.around q :=
+  single_directive_fault_local o f "~around" x (underInterceptor fi) sh.around q h
+
+/-- `fieldsAround` puts exactly this wrapper on every field but `__typename` -/
+example : fieldsAround [({ alias := "a", name := "a", dirs := ["d"] }, Shape.leaf true),
+      ({ alias := "t", name := "__typename" }, Shape.leaf true)] =
+    [(underInterceptor { alias := "a", name := "a", dirs := ["d"] }, Shape.leaf true),
+      ({ alias := "t", name := "__typename" }, Shape.leaf true)] := by
+  simp [fieldsAround, underInterceptor, Shape.around]
+
 /-! non-vacuity -/
 example : ¬ ([Seg.key "a"] <+: [Seg.key "b", Seg.key "x"]) := by decide
 example : (({ res := fun _ => .val .null, dir := fun _ _ => .pass } : Oracle).withRes [.key "b"] (.panic "boom")).res [.key "b"]
